@@ -158,6 +158,9 @@ static inline FockPair *fo_arrow(FockMapIt *it)
 //@struct Pomerol::HamiltonianPart only=Status,H,Block
 static inline BlockNumber HamiltonianPart_getBlockNumber(struct HamiltonianPart *self) { return self->Block; }
 //@tu src/pomerol/StatesClassification.cpp
+/* twins for the other spelling of an increment (`++it` for `it++` and vice versa): same effect.  X_inc yields the iterator after the step
+ * (exact); X_postinc made from X_inc is void, so a use of its value does not compile (UNDECIDED) instead of being modelled wrongly */
+#define VecFockIt_inc(it_) (VecFockIt_postinc(it_), (it_))      /* pre-increment: the iterator itself, after the step */
 //@function Pomerol::BlockNumber::operator==(Pomerol::BlockNumber const&) const as BlockNumber_eq
 //@end
 //@tu src/pomerol/HamiltonianPart.cpp
